@@ -916,6 +916,12 @@ def run_reqlife(ctx, exe, cases, monitors_only=False):
             continue
         if monitors_only:
             continue
+        mbad = req_monitor(c, model[j]) or (("model-bad-free", "BADFREE") if any("BADFREE" in l or "ILLEGAL" in l for l in model[j]) else None)
+        if mbad:
+            # the statements of Props/C11Req that are not yet theorems (no_double_free, cleanup_frees_all, path_lifetime, ...) are
+            # evaluated on the model for every case that is run: a model that breaks them is no model of the property
+            ctx.broken_correspondence("FsReq model satisfies the life-cycle statements on every generated case", f"case {c}: {mbad[0]}: {mbad[1]}")
+            return False
         if obs != model[j]:
             k = next((x for x in range(min(len(obs), len(model[j]))) if obs[x] != model[j][x]), min(len(obs), len(model[j])))
             ctx.broken_correspondence("FsReq model vs request life cycle of src/unix/fs.c",
